@@ -25,7 +25,13 @@ def run(ctx):
              "iteration that starts and ends paused, UDS path present and connects succeed while running, and at quiescence "
              "no listener out of back-off keeps a waiting connection while a worker has capacity; non-trivial = the run "
              "contains a command or an injected error")
+    import srvload
+    srvload.run(ctx)
 
 
 def replay(ctx, path):
+    import json as _j
+    if _j.load(open(path))["replay"].get("mode") == "e2e-load":
+        import srvload
+        return srvload.replay(ctx, path)
     srvflow.replay(ctx, path, INV)
